@@ -6,6 +6,8 @@ import (
 	"bytes"
 	"encoding/json"
 	"fmt"
+	"github.com/johannesboyne/gofakes3"
+	"io"
 	"strings"
 	"testing"
 	"time"
@@ -233,7 +235,64 @@ func c11Edge(size int) []string {
 	return hs
 }
 
+func c11Overlap(e *c11Env) (ds []disc) {
+	const size = 4000
+	a, b := bytes.Repeat([]byte("A"), size), bytes.Repeat([]byte("b"), size)
+	for i := range a {
+		a[i] = 'A' + byte(i%26)
+		b[i] = 'a' + byte(i%26)
+	}
+	for name, body := range map[string][]byte{"overlap/upper": a, "overlap/lower": b} {
+		if r := put(e.st, "bk0", name, body); r.Status != 200 {
+			panic("harness: " + r.String())
+		}
+	}
+	be := e.st.Backend
+	for round := 0; round < 4; round++ {
+		for _, rg := range []gofakes3.ObjectRangeRequest{{Start: 0, End: 0}, {Start: 2, End: 5}, {Start: 100, End: gofakes3.RangeNoEnd}, {Start: 3900, End: 99999}, {Start: 0, End: 7, FromEnd: true}} {
+			rg1, rg2 := rg, rg
+			oa, err := be.GetObject("bk0", "overlap/upper", &rg1)
+			if err != nil {
+				return dsc("api-range-failed", "backend=%s GetObject(upper, %+v): %v", e.st.Kind, rg, err)
+			}
+			ob, err := be.GetObject("bk0", "overlap/lower", &rg2)
+			if err != nil {
+				oa.Contents.Close()
+				return dsc("api-range-failed", "backend=%s GetObject(lower, %+v): %v", e.st.Kind, rg, err)
+			}
+			if h, err := be.HeadObject("bk0", "overlap/lower"); err == nil && h.Contents != nil {
+				h.Contents.Close()
+			}
+			ga, _ := io.ReadAll(oa.Contents)
+			gb, _ := io.ReadAll(ob.Contents)
+			oa.Contents.Close()
+			ob.Contents.Close()
+			want := func(body []byte) []byte {
+				r, err := rg.Range(int64(len(body)))
+				if err != nil || r == nil {
+					return nil
+				}
+				return body[r.Start : r.Start+r.Length]
+			}
+			if !bytes.Equal(ga, want(a)) || !bytes.Equal(gb, want(b)) {
+				ds = append(ds, dsc("overlapping-reads-mixed", "backend=%s round %d range %+v: two objects fetched one after the other and read afterwards deliver %q… and %q…, want %q… and %q…", e.st.Kind, round, rg, trunc(ga, 12), trunc(gb, 12), trunc(want(a), 12), trunc(want(b), 12))...)
+				return ds
+			}
+		}
+	}
+	return ds
+}
+
 func c11Replay(check string, raw json.RawMessage) ([]disc, error) {
+	if check == "range-overlap" {
+		var cs c11Case
+		if err := json.Unmarshal(raw, &cs); err != nil {
+			return nil, err
+		}
+		e := newC11Env(cs.Backend)
+		defer e.st.Close()
+		return c11Overlap(e), nil
+	}
 	var cs c11Case
 	if err := json.Unmarshal(raw, &cs); err != nil {
 		return nil, err
@@ -338,6 +397,15 @@ func c11Run(t *testing.T, c *evid.Collector) {
 				}
 			}
 			ver.st.Close()
+		}
+		// two ranged reads through the Go API whose lifetimes overlap (the second object is fetched, and a
+		// HeadObject made, before the first one's contents are consumed): each still delivers its own range
+		for _, k := range kinds {
+			e := envs[k]
+			ds := c11Overlap(e)
+			cs := c11Case{k, -1000, "overlapping Backend.GetObject calls"}
+			c.Case(evid.FP(string(k), "overlap"), true, func() interface{} { return cs }, "backend:"+string(k), "src:overlapping-api-reads")
+			report(c, "range-overlap", ds, cs)
 		}
 		c.Exhaustive(false) // the small scope is complete, the property's domain is not
 		c.Set("exhaustive_scope", fmt.Sprintf("sizes 0..%d x {bytes=F-L, bytes=F-, bytes=-S : F,L,S in -1..%d} on %d configurations: complete", n, n+2, len(kinds)))
